@@ -185,7 +185,15 @@ class Roles:
                 return nb
             except Exception:
                 return b
-        cands = [(with_helpers_inlined(cb), True) for cb in F.closures_of(method)] + [(with_helpers_inlined(method), False)]
+        # a named function handed to an iterator adaptor (`filter_map(reading_task)`) stands where a closure would
+        fn_items = []
+        for c in method.calls.values():
+            if c.qname.startswith('std::iter::Iterator::') and len(c.args) >= 2 and not method.blocks[c.bb]['cleanup']:
+                raw = method.blocks[c.bb]['term']['args'][1]
+                k = raw.get('k') if isinstance(raw, dict) else None
+                if isinstance(k, dict) and 'fn' in k and k['fn'].get('id') in F.bodies and F.bodies[k['fn']['id']].crate == method.crate:
+                    fn_items.append(F.bodies[k['fn']['id']])
+        cands = [(with_helpers_inlined(cb), True) for cb in list(F.closures_of(method)) + fn_items] + [(with_helpers_inlined(method), False)]
         testers = [(cb, is_clo) for cb, is_clo in cands if tests_enum(cb)]
         if not testers:
             return 'all'
